@@ -2,6 +2,7 @@ package scen
 
 import (
 	"fmt"
+	"strings"
 	"runtime"
 	"time"
 
@@ -348,6 +349,17 @@ func c06Run(c *Ctx) {
 	}
 	_ = parent
 	child := s.NewProbe("child")
+	if path == "supervisor-restart" || path == "restart" {
+		// PreStart of a re-incarnation takes simulated time, and the sender keeps
+		// sending meanwhile: a Receive that starts before it is over is visible
+		pre := time.Duration(c.W.Draw(3)) * time.Millisecond
+		child.PreStartErr = func(inc int) error {
+			if inc > 1 && pre > 0 {
+				Sleep(pre)
+			}
+			return nil
+		}
+	}
 	copts := []actor.SpawnOption{actor.WithSupervisor(sup)}
 	mb := sysMailboxes[c.W.Draw(5)] // BoundedMailbox is left out: stopping an actor whose disposed ring still holds messages makes a worker spin (reported in DESIGN.md, outside C06)
 	copts = append(copts, mb.Opt()...)
@@ -386,6 +398,7 @@ func c06Run(c *Ctx) {
 			case 1:
 				cm.Ops = []Op{{K: OpYield, N: 1 + c.W.Draw(4)}}
 			}
+			s.Ev(Ev{Actor: "child", Kind: "tell-call", Tag: cm.Tag})
 			_ = s.Tell(cpid, cm)
 			if c.W.Draw(3) == 0 {
 				Sleep(time.Duration(c.W.Draw(3)) * time.Millisecond)
@@ -446,6 +459,16 @@ func c06Run(c *Ctx) {
 	_ = s.Stop()
 }
 
+// tailAt renders the n log entries up to and including event seq.
+func (s *Sys) tailAt(seq, n int) string {
+	var b strings.Builder
+	for i := max(0, seq-n+1); i <= seq && i < len(s.Log); i++ {
+		b.WriteString(s.Log[i].String())
+		b.WriteString(" | ")
+	}
+	return b.String()
+}
+
 func c06Finish(c *Ctx) {
 	st, _ := c.state.(*c06State)
 	if st == nil {
@@ -476,7 +499,27 @@ func c06Finish(c *Ctx) {
 				i.firstRecv = e.Seq
 			}
 			if i.preExit < 0 {
-				c.Fail("receive-before-prestart", st.path, "%s/%d handled a message (event #%d) before PreStart completed", e.Actor, e.Inc, e.Seq)
+				// Was the Tell of this message invoked before the re-incarnation began
+				// (it passed the liveness check of the old incarnation and was enqueued
+				// late: a listed finding) or after it (the restarting actor accepted it)?
+				comp := st.path
+				preEnter, tellCall := -1, -1
+				for _, x := range st.s.Log {
+					if x.Actor == "child" && x.Kind == "prestart-enter" && x.Inc == e.Inc {
+						preEnter = x.Seq
+					}
+					if x.Kind == "tell-call" && x.Tag == e.Tag {
+						tellCall = x.Seq
+					}
+				}
+				if e.Inc > 1 && tellCall >= 0 && preEnter >= 0 {
+					if tellCall < preEnter {
+						comp += ":tell-began-before-restart"
+					} else {
+						comp += ":tell-accepted-during-restart"
+					}
+				}
+				c.Fail("receive-before-prestart", comp, "%s/%d handled a message (event #%d, tag %d, goroutine %s) before PreStart of that incarnation completed; log up to there: %s", e.Actor, e.Inc, e.Seq, e.Tag, e.G, st.s.tailAt(e.Seq, 14))
 				return
 			}
 			if i.stopEnter >= 0 && e.Kind == "recv-enter" && !st.second {
